@@ -253,6 +253,33 @@ func tBV(op string, a, b *Term) *Term {
 			return bvConst(w, c)
 		}
 	}
+	// division and remainder by a power of two become shifts and masks (cheap for bit-blasting)
+	if b.Op == "const" && b.C != 0 && b.C&(b.C-1) == 0 && w <= 64 && sx(b.C, w) > 0 {
+		k := uint64(0)
+		for (uint64(1) << k) != b.C {
+			k++
+		}
+		kc := bvConst(w, k)
+		switch op {
+		case "bvudiv":
+			return tBV("bvlshr", a, kc)
+		case "bvurem":
+			return tBV("bvand", a, bvConst(w, b.C-1))
+		case "bvsdiv":
+			if k == 0 {
+				return a
+			}
+			neg := tCmp("bvslt", a, bvConst(w, 0))
+			return tIte(neg, tNeg(tBV("bvlshr", tNeg(a), kc)), tBV("bvlshr", a, kc))
+		case "bvsrem":
+			if k == 0 {
+				return bvConst(w, 0)
+			}
+			neg := tCmp("bvslt", a, bvConst(w, 0))
+			m := bvConst(w, b.C-1)
+			return tIte(neg, tNeg(tBV("bvand", tNeg(a), m)), tBV("bvand", a, m))
+		}
+	}
 	// identities
 	switch op {
 	case "bvadd", "bvor", "bvxor":
